@@ -181,6 +181,7 @@ class Case:
         self.dinit = dinit
         self.reads = []       # list of tokens
         self.fault = "none"
+        self.mfault = None    # fault plan for the model's twin run when its op index differs (same byte offset)
         self.scripts = []     # raw lines: "q ...", "p ...", "x ...", "i ..."
         self.meta = {}        # free-form information for oracles / evidence (not written)
 
@@ -205,6 +206,8 @@ class Case:
         L = ["case %s" % self.id,
              "cfg lim=%d tls=%d auth=%s dinit=%d" % (self.lim, self.tls, self.auth, self.dinit),
              "reads " + " ".join(self.reads), "fault " + self.fault]
+        if self.mfault:
+            L.append("mfault " + self.mfault)
         L += self.scripts
         L.append("end")
         return "\n".join(L) + "\n"
